@@ -82,7 +82,7 @@ def make_input(step, c, names, unknown="zz"):
             v = value((c, k)) if k >= 1 else value((c, 9))
             if k in step.get("rand", []):
                 v = distribution((-c, k), (c + k) % 3)
-            elif k >= 1 and (c + 2 * k) % 4 == 1:
+            elif k >= 1 and (c + k) % 2 == 0:
                 v = np.float32(v)       # a number need not be a Python float (the values are dyadic: exact in single precision)
             if form == "dict-sym" and k >= 1:
                 d[sympy.Symbol(name(k), real=True) if (c + k) % 2 else sympy.Symbol(name(k))] = v
